@@ -417,8 +417,8 @@ def view_scenarios(shapes, L, depth, seed, per_len=400):
 
 # ------------------------------------------------------------------ iterators (C06)
 
-ITER_SOURCES = ["vec.iter", "vec.for", "slice.iter", "slice.into_iter", "slice.trait", "slice.for_ref", "slicemut.iter"]
-ITERMUT_SOURCES = ["vec.iter_mut", "vec.for_mut", "slicemut.iter_mut", "slicemut.into_iter", "slicemut.trait"]
+ITER_SOURCES = ["vec.iter", "vec.for", "slice.iter", "slice.into_iter", "slice.trait", "slice.for_ref", "slicemut.iter", "slice.iter.reuse", "slicemut.iter.reuse"]
+ITERMUT_SOURCES = ["vec.iter_mut", "vec.for_mut", "slicemut.iter_mut", "slicemut.into_iter", "slicemut.trait", "slicemut.iter_mut.reuse"]
 
 
 def iter_scenarios(shapes, L):
